@@ -228,6 +228,18 @@ func FamilyAPI(tier string) []*Scenario {
 	for _, name := range []string{"start|start", "start,wait|start", "start,start|wait", "start,wait|plan,start"} {
 		out = append(out, &Scenario{Family: "F-api", Name: "api-conc-slowread-" + name, Plans: []PlanSpec{short}, Threads: conc[name], SlowReads: true, MaxSubmitSec: 10, MaxTicks: 10, PostWaitTicks: 1})
 	}
+	// plans that end early (failed first block, failed plan pre-check, bypassed plan): their last objects were never
+	// reached and are still NotStarted - a finished plan must not be started again whatever its tail looks like
+	early := map[string]PlanSpec{
+		"block-fails":  {Blocks: []BlockSpec{{Seqs: []SeqSpec{Seq(A(Perm))}}, {Seqs: okSeqs(1, 1)}}},
+		"pre-fails":    {Pre: Chk(A(Perm)), Post: Chk(A()), Blocks: []BlockSpec{{Seqs: okSeqs(1, 1)}}},
+		"bypassed":     {Bypass: Chk(A()), Def: Chk(A()), Blocks: []BlockSpec{{Seqs: okSeqs(1, 1)}}},
+		"all-complete": {Post: Chk(A()), Blocks: []BlockSpec{{Seqs: okSeqs(1, 1)}}},
+	}
+	for _, name := range sortedKeys(early) {
+		out = append(out, &Scenario{Family: "F-api", Name: "api-restart-after-" + name, Plans: []PlanSpec{early[name]}, MaxSubmitSec: 100, MaxTicks: 6, PostWaitTicks: 1,
+			Threads: [][]APICall{{{Op: "start", Plan: 0}, {Op: "wait", Plan: 0}, {Op: "start", Plan: 0}, {Op: "wait", Plan: 0}, {Op: "start", Plan: 0}}}})
+	}
 	// a consumer that leaves the Status loop early while the plan is still Running (time passes by default while the
 	// sequence action executes, so the poll falls inside the execution)
 	for _, n := range []int{1, 2} {
